@@ -48,7 +48,10 @@ def run(prog, rep):
             continue
         tests = [n for (b, i, n) in f_.nodes(elsewhere=True) if n["k"] == "member" and n["field"] == "closed" and root_var(n) == f_.param_names()[0]]
         sets = [c for (b, i, c) in f_.calls() if c.get("callee") == "p_error_set_error_p"]
-        if tests and sets and len(f_.blocks) <= 8:
+        # role: reads the flag, reports an error, changes nothing and calls nothing else (a static close helper also reads the flag and sets an error)
+        writes = [n for (b, i, n) in f_.nodes(elsewhere=True) if n["k"] == "asg" and strip_casts(n["l"])["k"] == "member" and root_var(n["l"]) == f_.param_names()[0]]
+        others = [c for (b, i, c) in f_.calls() if c.get("callee") not in ("p_error_set_error_p", "__builtin_expect")]
+        if tests and sets and len(f_.blocks) <= 8 and not writes and not others:
             cands.append(f_)
     if len(cands) != 1:
         raise AnalysisBroken("psocket.c: expected one static closed-check helper, found %s" % [f_.name for f_ in cands])
@@ -193,8 +196,20 @@ def run(prog, rep):
     fr = u.fn("p_socket_free").inlined()
     cs = [c for (b, i, c) in fr.calls() if c.get("callee") in ("p_socket_close", "p_sys_close", "close")]
     okf = len(cs) == 1 and cs[0].get("callee") == "p_socket_close" and root_var(cs[0]["args"][0]) == fr.param_names()[0]
-    rep.ob("C10.2", fr, "free", okf, "p_socket_free closes through p_socket_close (so an already closed socket is not closed twice)" if okf else
-           "p_socket_free does not close exactly once through p_socket_close", fr.loc[0])
+    if not okf and len(cs) == 1 and cs[0].get("callee") != "p_socket_close" and root_var(cs[0]["args"][0]) == fr.param_names()[0]:
+        # the same through a static helper that holds the protocol (inlined here): the one native close is reached only with the
+        # closed flag tested false
+        fsp = fr.param_names()[0]
+        untested = []
+
+        def fs(st, b, i, stmt):
+            if any(x is cs[0] for x in calls(stmt)) and guards.lookup(st, "%s->closed" % fsp) != 0:
+                untested.append(line(stmt))
+            return [guards.transfer(st, stmt)]
+        Flow(fr, [guards.EMPTY], fs, lambda st, b, to, on: guards.edge_assume(st, b, on)).run()
+        okf = not untested
+    rep.ob("C10.2", fr, "free", okf, "p_socket_free closes once, behind the closed test of the close protocol (so an already closed socket is not closed twice)" if okf else
+           "p_socket_free does not close exactly once behind the closed test of p_socket_close", fr.loc[0])
     rep.floor("C10.2", 2)
 
     # ---- C10.3 non-blocking never waits -------------------------------------
@@ -410,9 +425,11 @@ def run(prog, rep):
     # a poll that came back with a verdict - a ready descriptor (1, whatever revents says: POLLERR/POLLHUP alone wake it too and the
     # native call then reports the reason) or the timeout (0) - ends the wait; only an interrupted one is re-entered.  Going round
     # again on a level-triggered poll spins forever.  errno is whatever an earlier call left (EINTR included): it means nothing here
+    from plint.retry import facts_before
+    before = facts_before(w, pb, pi)         # e.g. the reset of a loop flag in front of the call
     for pv in (1, 0):
         for ev_ in (0, 4):
-            res = run_scenario(w, pb, pi, pc, pv, ev_, excuse_other_calls=False)
+            res = run_scenario(w, pb, pi, pc, pv, ev_, extra_facts=before, excuse_other_calls=False)
             again = res["retried"] > 0
             rep.ob("C10.4", w, "timeout:verdict=%d,errno=%d" % (pv, ev_), not again, "poll returning %d ends the wait on every path" % pv if not again else
                    "poll returned %d (%s) and a path goes back into poll instead of returning: for a condition that stays raised (an error or hang-up on the descriptor) "
